@@ -297,17 +297,28 @@ impl<'a> ExecutorBuilder<'a> {
                             last_reported_bytes: 0,
                         });
 
-                        let projections: Vec<usize> = project
-                            .expressions
-                            .iter()
-                            .filter_map(|expr| {
-                                if let crate::sql::ast::Expr::Column(col) = expr {
-                                    resolve_column_index(col, &full_column_map)
-                                } else {
-                                    None
-                                }
-                            })
-                            .collect();
+                        let projections: Vec<usize> = if project.expressions.is_empty() {
+                            // SELECT *: keep every input column (as ProjectExec does)
+                            let output_len = full_column_map
+                                .iter()
+                                .map(|(_, idx)| *idx)
+                                .max()
+                                .map(|m| m + 1)
+                                .unwrap_or(0);
+                            (0..output_len).collect()
+                        } else {
+                            project
+                                .expressions
+                                .iter()
+                                .filter_map(|expr| {
+                                    if let crate::sql::ast::Expr::Column(col) = expr {
+                                        resolve_column_index(col, &full_column_map)
+                                    } else {
+                                        None
+                                    }
+                                })
+                                .collect()
+                        };
 
                         return Ok(DynamicExecutor::Project(
                             Box::new(sorted),
